@@ -40,7 +40,38 @@ def printers(prog):
     ex = Exec(prog, policy=pol)
     res = ex.run(fi)
     fmts = [e for e in res.events if e.kind == "mcall" and e.d["name"] == "format"]
+    # an f-string is the same thing as TEMPLATE.format(**values): rewrite it into that form so that the rules see one kind of printer
+    seen = set()
+    for e in res.events:
+        if e.kind != "return":
+            continue
+        for t in subterms(e.d["value"]):
+            if t.op == "fstr" and t.uid not in seen:
+                seen.add(t.uid)
+                tmpl, kw = "", {}
+                for part in t.args[0]:
+                    if is_const(part):
+                        tmpl += str(cval(part)).replace("{", "{{").replace("}", "}}")
+                    else:
+                        k = "v%d" % len(kw)
+                        kw[k] = part.args[0]
+                        spec = cval(part.args[1]) if is_const(part.args[1]) else "?"
+                        tmpl += "{%s%s}" % (k, (":" + spec) if spec else "")
+                fmts.append(_FStr(C(tmpl), kw, e.where))
     return fi, ex, res, fmts
+
+
+class _FStr:
+    """an f-string presented as the event of an equivalent TEMPLATE.format(**kwargs) call"""
+
+    kind = "mcall"
+
+    def __init__(self, template: Term, kwargs, where):
+        self.d = {"name": "format", "recv": template, "args": (), "kwargs": kwargs, "result": None}
+        self.where = where
+        self.ctx = ()
+        self.facts = ()
+        self.uid = -1
 
 
 def parser(prog):
@@ -211,17 +242,38 @@ def correspondence_rules(prog, chk, pid):
         opt = [x for x in r1 if x[0] == "opt"]
         rets = [e for e in ress.events if e.kind == "return" and e.stack == (fi_s.qualname,)]
         suffix_ok = False
+
+        def concat_alts(t):
+            """[(conditions, parts)]: the ways the string `t` is put together (conditional values expanded, '+' flattened, '' dropped)"""
+            t = unsnap(t)
+            if t.op == "phi":
+                c, x, y = t.args
+                return [(cs + [(c, True)], ps) for cs, ps in concat_alts(x)] + [(cs + [(c, False)], ps) for cs, ps in concat_alts(y)]
+            if t.op == "bin" and t.args[0] == "Add":
+                return [(c1 + c2, p1 + p2) for c1, p1 in concat_alts(t.args[1]) for c2, p2 in concat_alts(t.args[2])]
+            if is_const(t) and cval(t) == "":
+                return [([], [])]
+            return [([], [t])]
+
+        fres = unsnap(f1.d["result"])
         for r in rets:
-            v = unsnap(r.d["value"])
-            if v.op == "bin" and v.args[0] == "Add" and unsnap(v.args[1]) is unsnap(f1.d["result"]):
-                sfx = unsnap(v.args[2])
-                if sfx.op == "phi":
-                    a, b = unsnap(sfx.args[1]), unsnap(sfx.args[2])
-                    if is_const(b) and cval(b) == "" and a.op == "bin" and a.args[0] == "Add" and is_const(a.args[1]) and _self_attr(a.args[2], "name"):
-                        lead = cval(a.args[1])
-                        if len(opt) == 1 and len(opt[0][1]) == 2 and opt[0][1][0] == ("lit", lead) and opt[0][1][1][0] == "any":
-                            name_group = opt[0][1][1][1]
-                            suffix_ok = g1.get("name") == (name_group, None)
+            alts = [(cs, ps) for cs, ps in concat_alts(r.d["value"]) if ps and ps[0] is fres]
+            with_name = [(cs, ps) for cs, ps in alts if len(ps) == 3 and is_const(ps[1]) and _self_attr(ps[2], "name")]
+            bare = [(cs, ps) for cs, ps in alts if len(ps) == 1]
+            if len(alts) == 2 and len(with_name) == 1 and len(bare) == 1:
+                # the name is appended exactly when it is truthy
+                def name_truth(cs):
+                    vals = set()
+                    for c, pol in cs:
+                        r_ = rel(c, pol)
+                        if r_[0] == "rel" and r_[1] in ("Truthy", "Falsy") and _self_attr(r_[2], "name"):
+                            vals.add(r_[1])
+                    return vals
+                if name_truth(with_name[0][0]) == {"Truthy"} and name_truth(bare[0][0]) == {"Falsy"}:
+                    lead = cval(with_name[0][1][1])
+                    if len(opt) == 1 and len(opt[0][1]) == 2 and opt[0][1][0] == ("lit", lead) and opt[0][1][1][0] == "any":
+                        name_group = opt[0][1][1][1]
+                        suffix_ok = g1.get("name") == (name_group, None)
         ok, why = suffix_ok, "optional name suffix ' ' + name does not correspond to the pattern's optional group / name keyword"
     chk.require(ok, P("numeric-form-roundtrip"), fi_s.qualname + " <-> " + fi_p.qualname, "%s <-> %s" % ("{customer:05}-{projectId:04}-{device:04}-{version:02}[ name]", pat1), where_s,
                 "the numeric-scheme text form is printed and parsed with the same field widths, separators and field order; every group feeds the attribute printed at its position", why)
